@@ -23,6 +23,7 @@ import (
 	"strings"
 	"sync"
 	"sync/atomic"
+	"syscall"
 	"time"
 
 	pkglint "github.com/rillig/pkglint/v23"
@@ -565,6 +566,7 @@ type c10mkJudge struct {
 	seen  map[uint64]struct{}
 	mu    sync.Mutex
 	limit time.Duration
+	cross [][2]string // (input, model answer) for the vm_compute cross-check of the extraction
 }
 
 func (j *c10mkJudge) hash(s string) uint64 {
@@ -733,6 +735,13 @@ func (j *c10mkJudge) runBatch(cases []c10mkCase) {
 	}
 	j.res.Evaluations += len(cases) * len(c10mkSections)
 	j.res.TracesValidated += len(cases)
+	if k := cases[0].kind; (k == "corpus" || k == "grammar") && len(j.cross) < 150 {
+		for i := 0; i < len(cases) && len(j.cross) < 150; i += 1 + len(cases)/110 {
+			if len(cases[i].in) <= 32 {
+				j.cross = append(j.cross, [2]string{cases[i].in, model[i]})
+			}
+		}
+	}
 	for _, i := range []int{len(cases) / 3, len(cases) - 1} {
 		if len(cases[i].in) >= 4 {
 			j.res.Sample(map[string]any{"input": cases[i].in, "generator": cases[i].kind, "impl": impl[i]})
@@ -1208,6 +1217,102 @@ func c10mkRawAlign(ctx *Ctx, res *Result, rng *Rng, limit time.Duration, maxLen 
 	res.TracesValidated += len(pairs)
 }
 
+// ---------------------------------------------------------------- the extraction, cross-checked by coqc
+
+func coqStr(s string) string {
+	parts := make([]string, len(s))
+	for i := 0; i < len(s); i++ {
+		parts[i] = fmt.Sprint(int(s[i]))
+	}
+	return "[" + strings.Join(parts, "; ") + "]"
+}
+
+func coqTokens(sec string) (string, bool) {
+	toks, ok := c10mkParseTokens(sec)
+	if !ok {
+		return "", false
+	}
+	parts := make([]string, len(toks))
+	for i, t := range toks {
+		parts[i] = fmt.Sprintf("(%s, %v)", coqStr(t.text), t.expr)
+	}
+	return "[" + strings.Join(parts, "; ") + "]", true
+}
+
+// c10mkCrossCheck lets coqc evaluate the model itself (vm_compute) on a sample of the
+// cases; the results must be what the extracted OCaml oracle answered.
+func c10mkCrossCheck(ctx *Ctx, res *Result, cross [][2]string) {
+	var sb strings.Builder
+	sb.WriteString("From PV Require Import Lib.Bytes Model.MkLexPrim Model.MkLexer Model.MkLineSplit.\nOpen Scope N_scope.\n")
+	n := 0
+	for i, c := range cross {
+		m := c10mkSplitSections(c[1])
+		rhs := func(v string, ok func(string) (string, bool)) (string, bool) {
+			switch v {
+			case "P":
+				return "Panic", true
+			case "F":
+				return "OutOfFuel", true
+			}
+			r, good := ok(v)
+			return "Ok " + r, good
+		}
+		mt, ok1 := rhs(m["mt"], func(v string) (string, bool) {
+			f := strings.Split(v, ";")
+			if len(f) != 2 {
+				return "", false
+			}
+			t, ok := coqTokens(f[0])
+			return "(" + t + ", " + coqStr(unhx(f[1])) + ")", ok
+		})
+		uc, ok2 := rhs(m["uc"], func(v string) (string, bool) {
+			f := strings.Split(v, ";")
+			if len(f) != 2 {
+				return "", false
+			}
+			return "(" + coqStr(unhx(f[0])) + ", " + coqStr(unhx(f[1])) + ")", true
+		})
+		tk, ok3 := rhs(m["tk"], coqTokens)
+		if !ok1 || !ok2 || !ok3 {
+			res.Broken = "cross-check: cannot read the oracle's answer " + q(c[1])
+			return
+		}
+		in := coqStr(c[0])
+		fmt.Fprintf(&sb, "Example mt%d : MkTokens %s = %s.\nProof. vm_compute. reflexivity. Qed.\n", i, in, mt)
+		fmt.Fprintf(&sb, "Example uc%d : unescape_comment %s = %s.\nProof. vm_compute. reflexivity. Qed.\n", i, in, uc)
+		fmt.Fprintf(&sb, "Example tk%d : tokenize %s = %s.\nProof. vm_compute. reflexivity. Qed.\n", i, in, tk)
+		n += 3
+	}
+	file := ctx.Work + "/cases.v"
+	if err := os.WriteFile(file, []byte(sb.String()), 0o644); err != nil {
+		res.Broken = err.Error()
+		return
+	}
+	// the .vo files must not be rebuilt by another check meanwhile: bin/check's coq lock
+	lock, err := os.OpenFile(ctx.Verif+"/.cache/coq.lock", os.O_CREATE|os.O_RDWR, 0o644)
+	if err == nil {
+		syscall.Flock(int(lock.Fd()), syscall.LOCK_EX)
+		defer func() { syscall.Flock(int(lock.Fd()), syscall.LOCK_UN); lock.Close() }()
+	}
+	cmd := exec.Command("timeout", "600", "coqc", "-Q", ctx.Verif+"/coq", "PV", file)
+	cmd.Dir = ctx.Work
+	out, err := cmd.CombinedOutput()
+	if err != nil {
+		msg := string(out)
+		if len(msg) > 600 {
+			msg = msg[:600]
+		}
+		res.AddViolation(Violation{
+			Key:        "C10/correspondence/extraction",
+			What:       "the extracted oracle and coqc (vm_compute) evaluate the model differently: " + strings.Join(strings.Fields(msg), " "),
+			FoundInput: false,
+			Replay:     map[string]any{"kind": "extraction", "broken": "extracted OCaml model = Gallina model (vm_compute cross-check on sampled cases)", "coqc": msg},
+		})
+		return
+	}
+	res.Count("extraction_cross_checked_by_coqc", n)
+}
+
 // ---------------------------------------------------------------- runner
 
 func runC10mk(ctx *Ctx) *Result {
@@ -1300,6 +1405,10 @@ func runC10mk(ctx *Ctx) *Result {
 		c10mkRawAlign(ctx, res, rng.Fork(), j.limit, 4, 200000)
 	} else {
 		c10mkRawAlign(ctx, res, rng.Fork(), j.limit, 3, 20000)
+	}
+
+	if res.Broken == "" {
+		c10mkCrossCheck(ctx, res, j.cross)
 	}
 
 	res.DistinctNontrivial = len(j.seen)
